@@ -102,7 +102,7 @@ POOLS = {
 POOLS['ComplexSingleFloat'] = [a + b for a, b in zip(_f32(), _f32()[3:] + _f32()[:3])]
 POOLS['ComplexDoubleFloat'] = [a + b for a, b in zip(_f64(), _f64()[3:] + _f64()[:3])]
 
-_UNITS = ['a', 'é', '日', "'", '/', ' ', 'Z', '本', '\x00', '́', 'q']
+_UNITS = ['a', 'é', '日', "'", '/', ' ', 'Z', '本', '\x00', '́', 'q', '\ufeff']   # U+FEFF: a BOM is ordinary text inside a TDMS string
 
 
 def mkstr(nbytes, k):
